@@ -19,8 +19,10 @@ def load(force=False):
         if not common.tlc_ok(out, st) or len(vs) < 1 or not vs[-1].get('selfcheck'):
             raise common.MachineryError('DumpTables failed or self check of the table modules is false:\n' + out[-2000:])
         os.makedirs(common.WORK, exist_ok=True)
-        with open(path, 'w') as f:
+        tmp = path + '.%d.tmp' % os.getpid()
+        with open(tmp, 'w') as f:
             json.dump(vs[-1], f)
+        os.replace(tmp, path)
     with open(path) as f:
         _T = json.load(f)
     return _T
